@@ -10,6 +10,7 @@ import (
 	"fmt"
 	asn1crypto "golang.org/x/crypto/cryptobyte/asn1"
 	"io"
+	"math"
 	"math/big"
 	"time"
 )
@@ -90,7 +91,11 @@ func ReadUtcTime(reader Asn1Reader) (*time.Time, error) {
 	if err != nil {
 		return nil, err
 	}
-	lastUpdateUtcBytes, err := ReadExpectedBytes(reader, int(lastUpdateUtcTag.Length.Length.Int64()))
+	lastUpdateUtcLength, err := lengthToInt(&lastUpdateUtcTag.Length.Length)
+	if err != nil {
+		return nil, err
+	}
+	lastUpdateUtcBytes, err := ReadExpectedBytes(reader, lastUpdateUtcLength)
 	if err != nil {
 		return nil, err
 	}
@@ -110,7 +115,11 @@ func ParseBitString(reader Asn1Reader) (*BitString, error) {
 	if err != nil {
 		return nil, err
 	}
-	readBytes, err := ReadExpectedBytes(reader, int(tagLength.Length.Length.Int64()))
+	bitStringLength, err := lengthToInt(&tagLength.Length.Length)
+	if err != nil {
+		return nil, err
+	}
+	readBytes, err := ReadExpectedBytes(reader, bitStringLength)
 	if err != nil {
 		return nil, err
 	}
@@ -138,7 +147,11 @@ func ParseOctetString(reader Asn1Reader) (ret []byte, err error) {
 	if err != nil {
 		return nil, err
 	}
-	return ReadExpectedBytes(reader, int(tagLength.Length.Length.Int64()))
+	octetStringLength, err := lengthToInt(&tagLength.Length.Length)
+	if err != nil {
+		return nil, err
+	}
+	return ReadExpectedBytes(reader, octetStringLength)
 }
 
 func ParseUTCTime(bytes []byte) (*time.Time, error) {
@@ -259,39 +272,38 @@ func PeekTag(reader Asn1Reader, offset int) (*asn1crypto.Tag, error) {
 	return &tag, nil
 }
 
+// readChunkSize is the maximum number of bytes allocated ahead of the data actually read
+const readChunkSize = 64 * 1024
+
 func ReadExpectedBytes(reader Asn1Reader, byteSize int) ([]byte, error) {
-	readBytes := make([]byte, byteSize)
-	err := ReadExpectedBytesRecursive(reader, byteSize, &readBytes, 0)
-	if err != nil {
-		return nil, err
+	if byteSize < 0 {
+		return nil, fmt.Errorf("invalid negative length %d", byteSize)
+	}
+	//grow the buffer only as data arrives, so a length field which is not backed by data can not cause a huge allocation
+	readBytes := make([]byte, min(byteSize, readChunkSize))
+	currentPosition := 0
+	for currentPosition < byteSize {
+		if currentPosition == len(readBytes) {
+			readBytes = append(readBytes, make([]byte, min(byteSize-currentPosition, readChunkSize))...)
+		}
+		read, err := reader.Read(readBytes[currentPosition:])
+		if err != nil {
+			if err == io.EOF {
+				return nil, fmt.Errorf("end of file reached while still expecting bytes %v", err)
+			}
+			return nil, err
+		}
+		currentPosition += read
 	}
 	return readBytes, nil
 }
 
-func ReadExpectedBytesRecursive(reader Asn1Reader, byteSize int, byteArray *[]byte, currentPosition int) error {
-	bytesLeftToRead := byteSize - currentPosition
-	readBytes := make([]byte, bytesLeftToRead)
-	read, err := reader.Read(readBytes)
-	if err != nil {
-		if err == io.EOF {
-			return fmt.Errorf("end of file reached while still expecting bytes %v", err)
-		}
-		return err
+// lengthToInt converts a decoded length to int, rejecting values which do not fit
+func lengthToInt(length *big.Int) (int, error) {
+	if !length.IsInt64() || length.Sign() < 0 || length.Int64() > math.MaxInt32 {
+		return 0, fmt.Errorf("length %s is out of range", length.String())
 	}
-	copyBytes(byteArray, readBytes, currentPosition, read)
-	if read != bytesLeftToRead {
-		err := ReadExpectedBytesRecursive(reader, byteSize, byteArray, currentPosition+read)
-		if err != nil {
-			return err
-		}
-	}
-	return nil
-}
-
-func copyBytes(targetBytes *[]byte, bytesToAdd []byte, targetBytePosition int, countOfBytesToAdd int) {
-	for i := targetBytePosition; i < targetBytePosition+countOfBytesToAdd; i++ {
-		(*targetBytes)[i] = bytesToAdd[i-targetBytePosition]
-	}
+	return int(length.Int64()), nil
 }
 
 func PeekExpectedBytes(reader Asn1Reader, byteSize int, offset int) ([]byte, error) {
@@ -378,7 +390,11 @@ func ReadBigInt(reader Asn1Reader) (*big.Int, error) {
 	if err != nil {
 		return nil, err
 	}
-	readBytes, err := ReadExpectedBytes(reader, int(tagLength.CalculateValueLength().Int64()))
+	valueLength, err := lengthToInt(tagLength.CalculateValueLength())
+	if err != nil {
+		return nil, err
+	}
+	readBytes, err := ReadExpectedBytes(reader, valueLength)
 	if err != nil {
 		return nil, err
 	}
